@@ -86,7 +86,7 @@ def native_replay(module, function, cex, tier, work, extra_env=None):
 
 
 def save_replay(pid, ob, cex, rep, tier):
-    d = os.path.join(HERE, 'replays', pid)
+    d = os.path.join(os.environ.get('VERIF_REPLAY_DIR', os.path.join(HERE, 'replays')), pid)
     os.makedirs(d, exist_ok=True)
     blob = json.dumps([ob['module'], ob['function'], cex], sort_keys=True)
     digest = hashlib.sha1(blob.encode()).hexdigest()[:10]
@@ -273,8 +273,9 @@ def run_property(pid, spec, tier, seed):
             ev['coverage']['transitions'] = max(1, sum(int(results[o['name']].get('transitions', 0) or 0) for o in obligations))
             ev['coverage']['traces_validated_against_impl'] = sum(int(results[o['name']].get('traces_validated', 0) or 0) for o in obligations) + len(violations)
             ev['coverage']['states_note'] = 'states/transitions count symbolic state vectors and transition-relation disjuncts of the unrolled BMC formulas (each stands for all concrete states/steps at that depth)'
-        os.makedirs(os.path.join(HERE, 'evidence'), exist_ok=True)
-        with open(os.path.join(HERE, 'evidence', pid + '.json'), 'w') as f:
+        evdir = os.environ.get('VERIF_EVIDENCE_DIR', os.path.join(HERE, 'evidence'))    # (overridden only by tools/ when checking scratch copies)
+        os.makedirs(evdir, exist_ok=True)
+        with open(os.path.join(evdir, pid + '.json'), 'w') as f:
             json.dump(ev, f, indent=1)
 
         for l in known_lines:
